@@ -193,6 +193,9 @@ func (c *ControllerWithEvents) LockLedger(ctx context.Context) (Controller, bun.
 		Controller: ctrl,
 		listener:   c.listener,
 		parent:     c,
+		// the locked controller runs inside the caller's transaction, if any: its events
+		// must wait for that commit like any other event of the transaction
+		hasTx: c.hasTx,
 	}, db, release, nil
 }
 
